@@ -105,7 +105,7 @@ class C13(Prop):
     assumptions = ("socket released = close() was called on it (finalisation alone counts only after a reset, where "
                    "shutdown() fails and lomond skips close()); selector released = its close() called",
                    "CPython reference counting finalises a dropped generator at once (gc.collect() is run before a leak is reported)")
-    examples = {"quick": 320, "thorough": 3200}
+    examples = {"quick": 320, "thorough": 8000}
 
     def strategy(self, tier):
         small = gen.weighted([(3, gen.data_msg(big=False)), (3, gen.control_msg(("ping",))), (1, gen.control_msg(("pong",)))])
